@@ -1,12 +1,190 @@
+/-
+  Property C07 — "Sound decoding preserves every sample and the header's format".
+
+  Model: lean/Drx/Snd.lean (format.py, snd2sampled.py, command/*.py, sampled.py, the `wave` calls of snd2wav.py).
+  Spec + encoder: lean/Drx/SndSpec.lean.  Helper lemmas: lean/DrxProofs/Snd.lean.
+  Generated from /repo on every run: lean/Drx/Gen/SndCommands.lean (command registry, header constants,
+  SampledSound defaults, the struct formats of every unpack in the readers).
+-/
 import Drx.Snd
 import Drx.SndSpec
 import DrxProofs.Py
+import DrxProofs.Snd
 namespace Drx.C07
 open Drx Drx.Snd Drx.SndSpec
+
+/-! ## ties to the generated tables -/
 
 /-- the generated registry sends the two sampled-sound commands to `_get_frames` and 0 to the null command -/
 theorem registry_dispatch :
     dispatch 0x8051 = some .frames ∧ dispatch 0x8050 = some .frames ∧ dispatch 0 = some .null := by
   decide
+
+/-- nothing else is registered: any other command number makes `snd_to_sampled` raise -/
+theorem registry_complete (c : Int) (h : c ≠ 0 ∧ c ≠ 0x8050 ∧ c ≠ 0x8051) : dispatch c = none := by
+  obtain ⟨h0, h1, h2⟩ := h
+  have e0 : ¬ ((0 : Int) = c) := by omega
+  have e1 : ¬ ((32849 : Int) = c) := by omega
+  have e2 : ¬ ((32848 : Int) = c) := by omega
+  simp [dispatch, lookupCmd, Gen.SndCommands.soundCommands, e0, e1, e2]
+
+/-- the struct formats the model reads with (`getS` = signed, `getU` = unsigned, width in bytes), per function in
+    source order, are the ones in the source: a changed sign or width (F07 was `>h` for the rate) breaks this -/
+theorem unpack_formats :
+    Gen.SndCommands.unpacks.map (fun (f, _, fmt, n) => (f, fmt, n)) =
+      [ ("parse_snd_fmt".toList, ">h".toList, 2),
+        ("parse_snd_fmt1".toList, ">h".toList, 2), ("parse_snd_fmt1".toList, ">h".toList, 2), ("parse_snd_fmt1".toList, ">i".toList, 4),
+        ("parse_snd_fmt2".toList, ">h".toList, 2),
+        ("parse_snd_commands".toList, ">h".toList, 2), ("parse_snd_commands".toList, ">h".toList, 2),
+        ("parse_snd_commands".toList, ">h".toList, 2), ("parse_snd_commands".toList, ">i".toList, 4),
+        ("_get_frames".toList, ">i".toList, 4), ("_get_frames".toList, ">i".toList, 4), ("_get_frames".toList, ">H".toList, 2),
+        ("_get_frames".toList, ">h".toList, 2), ("_get_frames".toList, ">i".toList, 4), ("_get_frames".toList, ">i".toList, 4),
+        ("_get_frames".toList, ">i".toList, 4),
+        ("_get_frames".toList, ">i".toList, 4), ("_get_frames".toList, ">i".toList, 4), ("_get_frames".toList, ">i".toList, 4),
+        ("_get_frames".toList, ">h".toList, 2), ("_get_frames".toList, ">h".toList, 2),
+        ("_get_frames".toList, ">i".toList, 4), ("_get_frames".toList, ">i".toList, 4), ("_get_frames".toList, ">i".toList, 4) ] := by
+  decide
+
+/-- `SampledSound()` starts mono, 8-bit: exactly what a standard sound header means -/
+theorem defaults_are_standard_header : St.init.channels = Header.standard.channels ∧ St.init.bits = Header.standard.bits := by
+  decide
+
+/-! ## decoding -/
+
+/-- a non-trivial spec object: format 1 with a data-type record, two null commands with junk parameters, soundCmd,
+    extended header, 44100 Hz, stereo 16-bit, two frames, trailing bytes -/
+def exampleSnd : Snd :=
+  ⟨.fmt1 [[0, 5, 0, 0, 0, 0xC0]], [[1, 2, 3, 4, 5, 6], [0xFF, 0xFF, 0xFF, 0xFF, 0xFF, 0xFF]], true, [0xAB, 0xCD], 44100, [0x80, 0],
+   [0, 0, 0, 1, 0, 0, 0, 2], .extended 2 2 16 [0x40, 0x0E, 0xAC, 0x44, 0, 0, 0, 0, 0, 0] (List.replicate 12 7) (List.replicate 14 9),
+   [1, 2, 3, 4, 5, 6, 7, 8], [0xEE]⟩
+
+example : Valid exampleSnd := by decide
+
+/-- **decode (encode s) = what the header says**, for EVERY valid resource: either format, any number of data-type
+    records and leading null commands (with any parameters), bufferCmd or soundCmd, standard or extended header,
+    every rate 0..65535 (any fractional part), any channel count, 8 or 16 bits, any sample data incl. empty,
+    any loop points / AIFF rate / reserved fields, any trailing bytes -/
+theorem decode_encode (s : Snd) (hv : Valid s) : sndToSampled (encode s) = .ok (expected s) :=
+  Drx.Snd.decode_encode s hv
+
+example : sndToSampled (encode exampleSnd) = .ok ⟨2, 16, 44100, [2, 1, 4, 3, 6, 5, 8, 7]⟩ :=
+  decode_encode exampleSnd (by decide)
+
+/-- spelled out: reported rate = the header's integer rate, channel count and sample width are the header's, the
+    samples are the sample area (pairwise swapped when 16-bit) -/
+theorem decode_reports_header (s : Snd) (hv : Valid s) :
+    ∃ r, sndToSampled (encode s) = .ok r ∧ r.rate = s.rateInt ∧ r.channels = s.header.channels ∧ r.bits = s.header.bits ∧
+      r.samples = (if s.header.bits = 16 then swapPairs s.samples else s.samples) :=
+  ⟨expected s, Drx.Snd.decode_encode s hv, rfl, rfl, rfl, rfl⟩
+
+/-- the decoded stream has frames × channels × width bytes -/
+theorem decode_sample_count (s : Snd) (hv : Valid s) :
+    ∃ r, sndToSampled (encode s) = .ok r ∧ r.samples.length = s.frames * s.header.channels * (s.header.bits / 8) :=
+  ⟨expected s, Drx.Snd.decode_encode s hv, by rw [expected_samples_length, samples_whole_frames s hv]⟩
+
+/-- the swap is the big-endian → little-endian exchange of each pair: applying it twice gives the area back -/
+theorem swap_involutive (l : Bytes) : swapPairs (swapPairs l) = l := swapPairs_swapPairs l
+
+/-- what the decoder must ignore is ignored: two valid resources with the same header format, rate and sample area
+    decode to the same sound, whatever else differs (format number, records, null commands, reserved fields, …) -/
+theorem decode_ignores_the_rest (s s' : Snd) (hv : Valid s) (hv' : Valid s')
+    (hc : s.header.channels = s'.header.channels) (hb : s.header.bits = s'.header.bits) (hr : s.rateInt = s'.rateInt)
+    (hs : s.samples = s'.samples) :
+    sndToSampled (encode s) = sndToSampled (encode s') := by
+  rw [Drx.Snd.decode_encode s hv, Drx.Snd.decode_encode s' hv']
+  simp [expected, hc, hb, hr, hs]
+
+/-! ## WAV -/
+
+/-- `wavRead (wavWrite p d) = (p, d)` for rate ≥ 1, channels ≥ 1, sample width 1..4, whole frames, sizes that fit
+    the 16/32-bit header fields -/
+theorem wav_roundtrip (p : WavParams) (d : Bytes)
+    (hc : 1 ≤ p.channels) (hw : 1 ≤ p.width ∧ p.width ≤ 4) (hr : 1 ≤ p.rate ∧ p.rate < 2 ^ 32)
+    (hal : p.channels * p.width < 2 ^ 16) (hbr : p.channels * p.rate * p.width < 2 ^ 32) (hlen : 36 + d.length < 2 ^ 32)
+    (hfr : d.length % (p.channels * p.width) = 0) :
+    ∃ w, wavWrite p d = .ok w ∧ wavRead w = .ok (p, d) :=
+  Drx.Snd.wav_roundtrip p d hc hw hr hal hbr hlen hfr
+
+example : ∃ w, wavWrite ⟨2, 2, 44100⟩ [2, 1, 4, 3, 6, 5, 8, 7] = .ok w ∧ wavRead w = .ok (⟨2, 2, 44100⟩, [2, 1, 4, 3, 6, 5, 8, 7]) :=
+  wav_roundtrip _ _ (by decide) (by decide) (by decide) (by decide) (by decide) (by decide) (by decide)
+
+/-- a WAV file for the sound can exist: at least one channel, block align / byte rate / size fit their header fields
+    (always true for 1..4 channels and resources below 4 GiB) -/
+def WavFits (s : Snd) : Prop :=
+  1 ≤ s.header.channels ∧ s.header.channels * (s.header.bits / 8) < 2 ^ 16 ∧
+  s.header.channels * s.rateInt * (s.header.bits / 8) < 2 ^ 32 ∧ 36 + s.samples.length < 2 ^ 32
+
+instance (s : Snd) : Decidable (WavFits s) := by unfold WavFits; exact inferInstance
+
+/-- the whole property at one resource: decode clause, size clause, and — when a WAV file can hold it — what snd2wav
+    writes reads back as the header's parameters and the samples -/
+def C07_at (s : Snd) : Prop :=
+  sndToSampled (encode s) = .ok (expected s) ∧
+  (expected s).samples.length = s.frames * s.header.channels * (s.header.bits / 8) ∧
+  (WavFits s → ∃ w, (sndToSampled (encode s)).bind sampledToWav = .ok w ∧ wavRead w = .ok (expectedWav s))
+
+/-- the property at full strength (every rate 0..65535) -/
+def C07_full : Prop := ∀ s : Snd, Valid s → C07_at s
+
+/-- open finding F08: `wave` cannot hold a rate of 0 -/
+def Supported (s : Snd) : Prop := 1 ≤ s.rateInt
+
+instance (s : Snd) : Decidable (Supported s) := by unfold Supported; exact inferInstance
+
+example : Valid exampleSnd ∧ Supported exampleSnd ∧ WavFits exampleSnd := by decide
+
+/-- the decoded sound, written by snd2wav's `wave` calls and read back, gives the header's parameters and samples -/
+theorem snd_wav_roundtrip (s : Snd) (hv : Valid s) (hsup : Supported s) (hfit : WavFits s) :
+    ∃ w, (sndToSampled (encode s)).bind sampledToWav = .ok w ∧ wavRead w = .ok (expectedWav s) := by
+  obtain ⟨hc, hal, hbr, hlen⟩ := hfit
+  rw [Drx.Snd.decode_encode s hv]
+  show ∃ w, sampledToWav (expected s) = .ok w ∧ _
+  rw [sampledToWav_expected s hv hc hsup]
+  have hb := header_bits s hv
+  have hw : 1 ≤ s.header.bits / 8 ∧ s.header.bits / 8 ≤ 4 := by rcases hb with h | h <;> rw [h] <;> decide
+  have hr : s.rateInt < 2 ^ 32 := by have := hv.2.2.2.2.1; omega
+  have hfr : (expected s).samples.length % (s.header.channels * (s.header.bits / 8)) = 0 := by
+    rw [expected_samples_length, samples_whole_frames s hv, Nat.mul_assoc]
+    exact Nat.mul_mod_left _ _
+  exact Drx.Snd.wav_roundtrip ⟨s.header.channels, s.header.bits / 8, s.rateInt⟩ (expected s).samples hc hw ⟨hsup, hr⟩ hal hbr
+    (by rw [expected_samples_length]; exact hlen) hfr
+
+/-- C07 for every rate ≥ 1 -/
+theorem C07_partial (s : Snd) (hv : Valid s) (hsup : Supported s) : C07_at s :=
+  ⟨Drx.Snd.decode_encode s hv, by rw [expected_samples_length, samples_whole_frames s hv], snd_wav_roundtrip s hv hsup⟩
+
+/-- the two decode clauses need no restriction: they hold for every rate 0..65535 -/
+theorem C07_decode_clauses (s : Snd) (hv : Valid s) :
+    sndToSampled (encode s) = .ok (expected s) ∧
+    (expected s).samples.length = s.frames * s.header.channels * (s.header.bits / 8) :=
+  ⟨Drx.Snd.decode_encode s hv, by rw [expected_samples_length, samples_whole_frames s hv]⟩
+
+/-- the excluded input: a valid standard-header resource whose rate is 0 -/
+def rateZeroSnd : Snd := ⟨.fmt2 [0, 0], [], false, [0, 0], 0, [0, 0], List.replicate 8 0, .standard, [0x80, 0x81, 0x7F], []⟩
+
+/-- F08 in the model: the rate-0 resource decodes, but the `wave` writer refuses it, so the WAV clause fails -/
+theorem C07_witness_rate0 : Valid rateZeroSnd ∧ ¬ Supported rateZeroSnd ∧ ¬ C07_at rateZeroSnd := by
+  refine ⟨by decide, by decide, ?_⟩
+  intro ⟨hdec, _, hwav⟩
+  obtain ⟨w, hw, _⟩ := hwav (by decide)
+  rw [hdec] at hw
+  have : sampledToWav (expected rateZeroSnd) = .error .other := by rfl
+  simp [Except.bind, this] at hw
+
+theorem C07_full_fails : ¬ C07_full := fun h => C07_witness_rate0.2.2 (h rateZeroSnd C07_witness_rate0.1)
+
+/-! ## bounded work (F09, shared with C10) -/
+
+/-- one `_get_frames` call allocates at most twice the resource size for its 16-bit output buffer, for EVERY byte
+    string, offset (negative included) and incoming state — the declared length alone can no longer drive it -/
+theorem get_frames_alloc_bounded (st : St) (idx : Int) (d : Bytes) : getFramesAlloc st idx d ≤ 2 * d.length :=
+  getFramesAlloc_le st idx d
+
+/-- whole decode: at most 2·|d| per command -/
+theorem decode_alloc_bounded (d : Bytes) : (sndAlloc d).1 ≤ 2 * d.length * (sndAlloc d).2 := by
+  unfold sndAlloc
+  split
+  · exact runCmdsAlloc_le d St.init _
+  · simp
 
 end Drx.C07
